@@ -77,6 +77,8 @@ def cases(tier, seed):
         yield dict(kind='spelling', variant=v, tier=tier)
     yield dict(kind='none', tier=tier)
     yield dict(kind='array', tier=tier)
+    for cont in ('int sample', 'float sample', 'double sample', 'int array', 'double array'):
+        yield dict(kind='lattice', container=cont, tier=tier)
     yield dict(kind='refuse', tier=tier)
 
 
@@ -192,6 +194,85 @@ def run_case(c):
                             if okseq:
                                 res.ok('list:k=%d' % k, k > 0)
             res.sample({'channels': spellings(S, tier)[-1], 'override menus': [repr(ATM), repr(GM), repr(RM)]})
+        elif c['kind'] == 'lattice':
+            # explicit-state search over the conversion lattice: a state is the set of channels converted so far, its object is
+            # kept and reused as the starting point of every successor (so a conversion that works in place on a double-precision
+            # input, or that leaves something shared between input and output, makes two paths to one state disagree)
+            cont = c['container']
+            if cont.endswith('sample') and cont != 'int sample':
+                dt = 'F' if cont.startswith('float') else 'D'
+                lay = dict(datatype=dt, bits=[32 if dt == 'F' else 64] * 4, ranges=RES, pne=PNE,
+                           events=[[fcsgen.float_bits(float(i % r), dt) for r in RES] for i in range(1024)], byteord='4,3,2,1', extra=[('$P3G', '2.0')])
+                p = os.path.join(scratch(), 'c03_%s.fcs' % dt)
+                buf, _ = fcsgen.build(lay)
+                with open(p, 'wb') as f:
+                    f.write(buf)
+                root = FlowCal.io.FCSData(p)
+            elif cont == 'int sample':
+                root = d
+            else:
+                root = base.copy() if cont == 'int array' else base.astype(np.float64)
+            is_sample = hasattr(root, 'channels')
+            rbase = np.array(np.asarray(root))
+            kw = (lambda j: {}) if is_sample else (lambda j: dict(amplification_type=FILE_AT[j], amplifier_gain=GAIN[j], resolution=RES[j]))
+            kwl = (lambda S: {}) if is_sample else (lambda S: dict(amplification_type=[FILE_AT[j] for j in S], amplifier_gain=[GAIN[j] for j in S], resolution=[RES[j] for j in S]))
+            states = {frozenset(): root}
+            prints = {frozenset(): fp(root)}
+            frontier = [frozenset()]
+            ntr = 0
+            bad = False
+            while frontier and not bad:
+                nxt = []
+                for st in frontier:
+                    for j in range(4):
+                        if j in st:
+                            continue
+                        for sp in ((j, NAMES[j]) if is_sample else (j,)):
+                            what = 'to_rfi(%s with %s converted, %r)' % (cont, sorted(st), sp)
+                            try:
+                                y = to_rfi(states[st], sp, **kw(j))
+                            except Exception as e:
+                                res.violation('lattice:raises:%s' % type(e).__name__, '%s raised %s: %s' % (what, type(e).__name__, e), dict(c))
+                                bad = True
+                                break
+                            ntr += 1
+                            st2 = st | {j}
+                            laws = {i: law(i, None, None, None) for i in st2}
+                            if not expect_ok(res, 'lattice', what, root, rbase, y, laws, dict(c)):
+                                bad = True
+                                break
+                            if fp(states[st]) != prints[st]:
+                                res.violation('lattice:input-changed', '%s changed the sample it was given: %s' % (what, diff(fp(states[st]), prints[st])), dict(c))
+                                bad = True
+                                break
+                            if st2 not in states:
+                                states[st2] = y
+                                prints[st2] = fp(y)
+                                nxt.append(st2)
+                                S = sorted(st2)
+                                tb = to_rfi(root, S, **kwl(S))
+                                if not same(tb, y):
+                                    res.violation('lattice:batch', '%s differs from the single call converting %r: %s' % (what, S, diff(fp(y), fp(tb))), dict(c))
+                                    bad = True
+                                    break
+                            elif fp(y) != prints[st2]:
+                                res.violation('lattice:path', '%s differs from the same channels converted along another path: %s' % (what, diff(fp(y), prints[st2])), dict(c))
+                                bad = True
+                                break
+                            res.ok('lattice:%s' % cont, True)
+                        if bad:
+                            break
+                    if bad:
+                        break
+                frontier = nxt
+            if not bad:
+                for st, obj in states.items():
+                    if fp(obj) != prints[st]:
+                        res.violation('lattice:state-changed', 'the %s with %s converted changed after later conversions started from it' % (cont, sorted(st)), dict(c))
+                        break
+            res.counters['lattice_states'] += len(states)
+            res.counters['lattice_transitions'] += ntr
+            res.sample({'container': cont, 'states': len(states), 'transitions': ntr})
         elif c['kind'] == 'narrow':
             # events held in 8- and 16-bit unsigned types, every value of the type's upper half included; settings given
             # as Python ints, floats, or taken from the file
